@@ -1272,7 +1272,7 @@ func (u *Unit) dispatchIface(c *ast.CallExpr, se *ast.SelectorExpr, sel *types.S
 	}
 	u.safety(env, "nil", c.Pos(), u.exprText(se.X)+" (interface method call)", Not(u.untyped(recv.Term)))
 	var outs []Outcome
-	rest := env
+	rest := env.clone()
 	for _, im := range impls {
 		e := rest.clone()
 		okT, rv := u.typeAssert(e, recv, im.ty)
